@@ -5,6 +5,7 @@ import Pycoin.Proofs.VMStepFlow
 import Pycoin.Proofs.VMStepPick
 import Mathlib.Tactic.IntervalCases
 import Pycoin.Proofs.VMEval
+import Pycoin.Proofs.VMSigEnc
 /-!
 C03M — the Lean model of pycoin's script VM (`Pycoin.VM`, tied to the code by `harness/props/c03m.py`) against the
 consensus specification `Pycoin.Spec.Consensus` (Bitcoin Core's interpreter, sibling builder).
@@ -293,5 +294,29 @@ example : noSigOps 9 [0x51, 0x63, 0x52, 0x53, 0x93, 0x67, 0x00, 0x68, 0x76] = tr
   (·.stack)) = some [[5], [5]]
 #guard (Consensus.evalScript (fun _ _ _ _ => false) [] [0x51, 0x63, 0x52, 0x53, 0x93, 0x67, 0x00, 0x68, 0x76] (Flags.ofBits 0) ⟨1, 0, 0⟩
   .base).toOption = some [[5], [5]]
+
+/-! ## signature, hash-type and public-key encoding rules (the checks around CHECKSIG) -/
+
+/-- `check_valid_signature` is `IsValidSignatureEncoding` (BIP66 strict DER incl. the hash-type byte) on **every** byte string:
+SIG_DER is raised exactly when Core's predicate is false -/
+theorem C03M_sigenc_der (sig : Bytes) :
+    checkValidSignature sig = if isValidSignatureEncoding sig then .ok () else .error sigDer := validSignature_eq sig
+
+/-- `check_defined_hashtype_signature` is `IsDefinedHashtypeSignature` (non-empty signature: the only way it is called) -/
+theorem C03M_sigenc_hashtype (sig : Bytes) (h : sig ≠ []) :
+    checkDefinedHashtypeSignature sig =
+      if isDefinedHashtypeSignature sig then .ok () else .error (scriptErr Gen.VM.errno_SIG_HASHTYPE) :=
+  definedHashtype_eq sig h
+
+/-- `check_public_key_encoding` (STRICTENC) is `IsCompressedOrUncompressedPubKey` -/
+theorem C03M_pubkey_encoding (blob : Bytes) :
+    checkPublicKeyEncoding blob =
+      if isCompressedOrUncompressedPubKey blob then .ok () else .error (scriptErr Gen.VM.errno_PUBKEYTYPE) :=
+  pubkeyEncoding_eq blob
+
+/-- the WITNESS_PUBKEYTYPE test of `checksig` is `!IsCompressedPubKey` -/
+theorem C03M_pubkey_compressed (blob : Bytes) :
+    (decide (blob.length ≠ 33) || !(decide (blob.head? = some 2) || decide (blob.head? = some 3))) = !isCompressedPubKey blob :=
+  compressedKey_eq blob
 
 end Pycoin.VM
